@@ -98,6 +98,7 @@ def flushFuel (w : Writer) : Nat :=
 structure CState where
   rd : Reader := Reader.new 16384
   rdDead : Bool := false
+  wrFinal : Bool := false
   /-- a second reader, configured like `rd`, that is only ever fed whole byte strings -/
   rdWhole : Reader := Reader.new 16384
   wr : Writer := {}
@@ -134,7 +135,7 @@ def handleCodec (st : CState) (ws : List String) : Option (CState × String) :=
     if st.rdDead then some (st, "dead")
     else if st.rd.buf.isEmpty then some (st, "end")
     else some ({ st with rdDead := true }, "ERR io bytes-remaining")
-  | ["wr_new"] => some ({ st with wr := {}, wrReady := false }, "ok")
+  | ["wr_new"] => some ({ st with wr := {}, wrReady := false, wrFinal := false }, "ok")
   | ["wr_set_max_frame", n] =>
     match n.toNat? with
     | some n => some ({ st with wr := { st.wr with maxFrame := n } }, "ok")
@@ -172,6 +173,13 @@ def handleCodec (st : CState) (ws : List String) : Option (CState × String) :=
       let (w, _, out, res) := Writer.flush (flushFuel st.wr) st.wr script []
       let r := match res with | .ready => "ready" | .pending => "pending" | .writeZero => "err WriteZero" | .loop => "loop"
       some ({ st with wr := w, wrReady := false }, s!"{r} out={Hex.render out}")
+    | none => none
+  | ["wr_shutdown", sc] =>
+    match parseScript sc with
+    | some script =>
+      let (w, done, out, res, shut) := Writer.shutdown (flushFuel st.wr) st.wr st.wrFinal script
+      let r := match res with | .ready => "ready" | .pending => "pending" | .writeZero => "err WriteZero" | .loop => "loop"
+      some ({ st with wr := w, wrReady := false, wrFinal := done }, s!"{r} out={Hex.render out} shut={if shut then 1 else 0}")
     | none => none
   | ["spec_rd_all", h] =>
     -- chunk invariance: whatever the chunking was, the reader must have produced what it produces
